@@ -118,6 +118,20 @@ theorem c09_model_meets_oracle (g : Graph) (hr : InRange g) (roots : List Nat) :
   · rintro ⟨v, hv, hc⟩
     exact c09_reject g hr roots hv hc
 
+/-- **C09 (the loop of the code).** The concrete counter / queue loop of `get_groups` (refined to
+the abstract layering in `Proofs/Kahn.lean`) fails with the cycle error exactly when a node reachable
+from the roots lies on a cycle. -/
+theorem c09_kahn (g : Graph) (hr : InRange g) (roots : List Nat) :
+    kahn g (closure g roots) = .error .cycle ↔ ∃ v ∈ closure g roots, Reach1 g v v := by
+  rw [(kahn_groups g roots).1]
+  constructor
+  · intro h
+    by_contra hn
+    obtain ⟨gs, hgs⟩ := (c09_iff g hr roots).mpr (fun v hv hc => hn ⟨v, hv, hc⟩)
+    rw [h] at hgs; cases hgs
+  · rintro ⟨v, hv, hc⟩
+    exact c09_reject g hr roots hv hc
+
 /-- `a` uses a path inside `a/b`, which is nested in `a`: a cycle through uses + nesting -/
 def exNestCycle : Config :=
   [ { path := [97], uses := [[97,47,98,47,120]], ignores := [] },
